@@ -158,18 +158,7 @@ Definition ok05 (c : case05) : bool :=
 Definition wf05 (c : case05) : bool :=
   negb (h_nil (k_from c)) && (h_height (k_from c) <? two64) && (k_to c <? two64) && (1 <=? k_per c).
 
-(** known-finding class 1 (narrow): the call panicked, the request was not beyond the slice
-    limit, and the model of the current code - in which every panic of the type-level Verify
-    while an answer is processed is recovered - reproduces the panic on the logged answers:
-    it is the panic of header.Verify inside verifyChunkBoundaries, which runs outside any
-    recover. A panic the model does not reproduce (e.g. on a request goroutine) is class 0. *)
-Definition class05 (c : case05) : N :=
-  match k_obs c with
-  | OPanic => if negb (beyond_slices c) && agree05 c then 1 else 0
-  | _ => 0
-  end.
-
-Definition chk05 (c : case05) : bool * bool * N := (wf05 c && agree05 c, ok05 c, class05 c).
+Definition chk05 (c : case05) : bool * bool * N := (wf05 c && agree05 c, ok05 c, 0).
 
 (** ** the oracle accepts whatever the model produces *)
 
@@ -221,12 +210,9 @@ Proof.
   intros [H Hl]. rewrite (HW _ _ H). cbn. apply IH, Hl.
 Qed.
 
-(** sound for every observation; an observed panic is accepted by the oracle only beyond the
-    slice limit whatever the model says, so for that observation the premise is the oracle's own test *)
-Theorem chk05_sound : forall c,
-  wf05 c && agree05 c = true -> (k_obs c = OPanic -> beyond_slices c = true) -> ok05 c = true.
+Theorem chk05_sound : forall c, wf05 c && agree05 c = true -> ok05 c = true.
 Proof.
-  intros c Hwa Hpanic. apply andb_prop in Hwa as [Hwf Hagree].
+  intros c Hwa. apply andb_prop in Hwa as [Hwf Hagree].
   unfold wf05 in Hwf.
   apply andb_prop in Hwf as [Hwf Hper]. apply andb_prop in Hwf as [Hwf Ht]. apply andb_prop in Hwf as [Hwf Hf].
   apply negb_true_iff in Hwf. apply N.ltb_lt in Hf, Ht. apply N.leb_le in Hper.
@@ -236,13 +222,11 @@ Proof.
   apply replay_run in Hrep.
   set (tv := vhdr_rtv (k_trust c)) in *.
   destruct (model_obs (watchdog_hit (k_log c)) s) as [o|] eqn:Hmo; [|discriminate].
-  unfold ok05. destruct (k_obs c) as [res| | | |] eqn:Hobs; try reflexivity; [| |exact (Hpanic eq_refl)].
-  all: destruct (run_p_spec (k_drift c) (vhdr_tvp (k_trust c)) (k_maxcap c) (k_from c) (log_events (k_log c))
-                            (get_range (k_maxcap c) (k_per c) (k_from c) (k_to c) (k_peers c))) as [Erun|[Erun _]];
-    [rewrite Erun in Hrep; fold (vhdr_rtv (k_trust c)) in Hrep; fold tv in Hrep
-    | rewrite <- Hrep in Erun; unfold model_obs in Hmo; rewrite Erun in Hmo; injection Hmo as <-; discriminate].
-  all: assert (Hout : s_res s = GetRangeByHeight (k_drift c) tv (k_maxcap c) (k_per c) (k_from c) (k_to c) (k_peers c)
+  rewrite (run_p_eq (k_drift c) (vhdr_tvp (k_trust c)) (k_maxcap c) (k_from c)) in Hrep.
+  fold (vhdr_rtv (k_trust c)) in Hrep. fold tv in Hrep.
+  assert (Hout : s_res s = GetRangeByHeight (k_drift c) tv (k_maxcap c) (k_per c) (k_from c) (k_to c) (k_peers c)
                                             (log_events (k_log c))) by (unfold GetRangeByHeight; rewrite Hrep; reflexivity).
+  unfold ok05. destruct (k_obs c) as [res| | | |] eqn:Hobs; try reflexivity.
   - (* headers *)
     destruct o as [l| | | |]; try discriminate. cbn [obs_eqb] in Hagree.
     apply (list_eqb_eq hdr_eqb hdr_eqb_eq) in Hagree. subst l.
@@ -270,6 +254,18 @@ Proof.
     pose proof (degenerate_is_error (k_drift c) tv (k_maxcap c) (k_per c) (k_from c) (k_to c) (k_peers c)
                                     (log_events (k_log c)) Hf Hdeg) as Herr.
     rewrite <- Hout in Herr. unfold model_obs in Hmo. rewrite Herr in Hmo. injection Hmo as <-. discriminate.
+  - (* a panic: only for a range beyond the largest slice *)
+    destruct o; try discriminate.
+    unfold model_obs in Hmo. destruct (s_res s) as [[l|[]| |]|] eqn:Hres; try discriminate.
+    2:{ destruct (s_flight s); [destruct (s_queue s), (s_idle s)|]; destruct (watchdog_hit (k_log c)); discriminate. }
+    symmetry in Hout. unfold beyond_slices, degenerate.
+    destruct (N.leb_spec (k_to c) (h_height (k_from c) + 1)) as [Hdeg|Hnd].
+    + rewrite (degenerate_is_error _ _ _ _ _ _ _ _ Hf Hdeg) in Hout. discriminate.
+    + cbn [negb andb]. apply N.ltb_lt.
+      destruct (N.le_gt_cases (k_to c - (h_height (k_from c) + 1)) (k_maxcap c)) as [Hcap|Hcap]; [exfalso | exact Hcap].
+      destruct (no_response_crashes (k_drift c) tv (k_maxcap c) (k_per c) (k_from c) (k_to c) (k_peers c)
+                                    (log_events (k_log c)) Hwf Hf Ht Hper Hcap) as [Hp _].
+      exact (Hp Hout).
 Qed.
 
 (** * C18: honest servers *)
@@ -434,16 +430,9 @@ Proof.
   apply replay_run in Hrep. fold evs in Hrep.
   rewrite Hwd in Hagree.
   destruct (model_obs false s) as [o|] eqn:Hmo; [|discriminate].
-  destruct (run_p_spec (k_drift b) (vhdr_tvp (k_trust b)) (k_maxcap b) (k_from b) evs
-                       (get_range (k_maxcap b) (k_per b) (k_from b) (k_to b) (k_peers b))) as [Erun|[Erun1 Erun2]].
-  2:{ (* a panic in the boundary check: the recovered run would report a broken chain, which honest answers never cause *)
-    exfalso. fold (vhdr_rtv (k_trust b)) in Erun2. fold tv in Erun2.
-    apply (honest_no_chain_error (k_drift b) tv (k_maxcap b) (k_per b) (k_from b) (k_to b) (k_peers b) c top evs
-                                 Hwf Hf1 Ht Hper Hch Hhon); [|exact Erun2].
-    intros p0 now0 fs0 Hev. apply log_events_kinds in Hev as (e0 & He0 & [Hd0|Hr0]); [discriminate|].
-    injection Hr0 as -> -> ->. apply chain_verifies_b_sound. rewrite forallb_forall in Hver. apply Hver.
-    apply nodup_In. unfold nows_log. apply in_map, He0. }
-  rewrite Erun in Hrep. fold (vhdr_rtv (k_trust b)) in Hrep. fold tv in Hrep.
+  rewrite (run_p_eq (k_drift b) (vhdr_tvp (k_trust b)) (k_maxcap b) (k_from b)) in Hrep.
+  fold (vhdr_rtv (k_trust b)) in Hrep. fold tv in Hrep.
+
   assert (Hout : s_res s = GetRangeByHeight (k_drift b) tv (k_maxcap b) (k_per b) (k_from b) (k_to b) (k_peers b) evs).
   { unfold GetRangeByHeight. rewrite Hrep. reflexivity. }
   assert (Hnoctx : ~ In ECtxDone evs /\ ~ In EStop evs).
